@@ -30,7 +30,9 @@ BUDGET_S = {"quick": 30, "thorough": 400}
 RULE = (
     "hierarchies = initbuild's random single-inheritance chains (depth<=3; attr.s/define/frozen/these/make_class; dict and "
     "slotted in every order; plain classes in between; mutable hooked ancestors above the first frozen class; cache_hash; "
-    "exception roots; auto_exc on/off) with at least one class declared frozen, extended by 0-2 plain (undecorated) subclasses "
+    "exception roots -- Exception, ValueError, a user's Exception subclass, and bases OUTSIDE the Exception subtree: "
+    "BaseException, KeyboardInterrupt, SystemExit, GeneratorExit, asyncio.CancelledError, a user's class Quit(BaseException) "
+    "(harness-only: the model sees one builtin root row whose __setattr__/__delattr__ are BaseException's); auto_exc on/off) with at least one class declared frozen, extended by 0-2 plain (undecorated) subclasses "
     "below the last attrs class (dict or __slots__=()), field-less mixins (plain / attrs frozen / attrs mutable / defining "
     "__setattr__ or __delattr__) before or after the main base of any class, body-defined __setattr__/__delattr__ with and without "
     "auto_detect (overridden by frozen=True under attr.s; kept below hooked and frozen bases), "
@@ -174,6 +176,10 @@ def _repair_order(h):
 def _decorate_hspec(rng, h, stream):
     """add tail / mixins / state-method options to a chain from initbuild"""
     h = copy.deepcopy(h)
+    # the exception-base dimension: initbuild picks among builtins on both sides of `Exception`; add stdlib / user-made
+    # roots (a user's class Quit(BaseException), asyncio.CancelledError, a user's Exception subclass)
+    if h["classes"][0].get("exc_base") and rng.random() < 0.3:
+        h["classes"][0]["exc_root"] = rng.choice(["Quit", "Quit", "CancelledError", "AppError"])
     for cs in h["classes"]:
         if cs["kind"] != "attrs":
             continue
@@ -278,6 +284,8 @@ def _decorate_hspec(rng, h, stream):
                                             "validators": 0, "on_setattr": "unset", "type": None, "conv_type": False}]}
                         if root["exc_base"]:
                             root["auto_exc"] = None
+                            if top.get("exc_root"):
+                                root["exc_root"] = top.pop("exc_root")
                         top["exc_base"] = False
                         h["classes"].insert(0, root)
                 if cs.get("api") in ("attr.s", "these", "make_class") and rng.random() < 0.7:
@@ -779,6 +787,8 @@ def dist(case, obs):
         "mixins": sum(1 for cs in h["classes"] + h.get("tail", []) if cs.get("mixin")),
         "deco_hist": sum(len(cs.get("deco_hist", [])) for cs in h["classes"]),
         "api": leaf.get("api"), "exc_root": case["excRoot"],
+        "exc_base": (h["classes"][0].get("exc_root") or "Exception") if case["excRoot"] else "-",
+        "exc_outside_Exception": bool(case["excRoot"]) and (h["classes"][0].get("exc_root") in cb.OUTSIDE_EXCEPTION),
         "slots": case["init"]["run"]["cfg"]["slots"], "cache_hash": case["init"]["run"]["cfg"]["cacheHash"],
         "hasDict": case["hasDict"], "gs": case["gs"], "n_ops": len(case["ops"]),
         "n_fields": len(case["init"]["run"]["attrs"]),
@@ -825,6 +835,13 @@ def shrink(case):
         h2 = copy.deepcopy(h)
         h2["tail"] = h2["tail"][:-1]
         yield from remake(h2)
+    if h["classes"][0].get("exc_base"):
+        er = h["classes"][0].get("exc_root") or "Exception"
+        for simpler in ("Exception", "BaseException"):
+            if er != simpler and not (simpler == "BaseException" and er == "Exception"):
+                h2 = copy.deepcopy(h)
+                h2["classes"][0]["exc_root"] = simpler
+                yield from remake(h2)
     for part in ("classes", "tail"):
         for i, cs in enumerate(h.get(part, [])):
             for key in ("deco_hist", "mixin", "user_set", "user_del", "getstate_setstate", "auto_detect"):
@@ -835,9 +852,11 @@ def shrink(case):
     if len(h["classes"]) > 1:
         for ci in range(len(h["classes"]) - 1):
             h2 = copy.deepcopy(h)
-            eb = h2["classes"][0].get("exc_base")
+            eb, er = h2["classes"][0].get("exc_base"), h2["classes"][0].get("exc_root")
             del h2["classes"][ci]
             h2["classes"][0]["exc_base"] = eb
+            if er:
+                h2["classes"][0]["exc_root"] = er
             if any(c["kind"] == "attrs" and (c.get("frozen") or c.get("api") == "frozen") for c in h2["classes"]):
                 yield from remake(h2)
     for ci, cs in enumerate(h["classes"]):
